@@ -228,6 +228,22 @@ Definition is_nil (r : result) : bool := match r with RNil => true | _ => false 
 (* the result list without the nil entries *)
 Definition proj_results (rs : list result) : list result := filter (fun r => negb (is_nil r)) rs.
 
+(* without any assumption on the ids (the same id twice inside one request, the id of a pending or of a
+   completed operation in a later request): Q rejects a message as soon as one of its operations carries
+   an id that is pending - the operations before it stay registered, the rest is not, a send error is
+   recorded -; accepted_ops are the operations of the messages that were not rejected when they were queued *)
+Definition rejected (s : st) (m : msg) : bool := snd (add_pending (m_ops m) (pend s)).
+Fixpoint accepted_ops (c : cfg) (s : st) (evs : list ev) : list op :=
+  match evs with
+  | [] => []
+  | Q m :: tl => (if rejected s m then [] else m_ops m) ++ accepted_ops c (step c s (Q m)) tl
+  | e :: tl => accepted_ops c (step c s e) tl
+  end.
+(* o is accounted for: the pending queue holds o itself under its id, or a result for its id carries its
+   type and key *)
+Definition accounted (s : st) (o : op) : Prop :=
+  pget (o_id o) (pend s) = Some o \/ exists x, In (ROp (o_id o) x (Some (details_of o))) (results s).
+
 (* ---------------------------------------------------------------- correspondence cases *)
 
 Record obs := mkobs {
